@@ -462,6 +462,47 @@ func runC08(c *core.Ctx) {
 			}
 		}
 	}
+	// stats with the first or last record and the current date about a day apart, written under different offsets
+	// (an earlier instant that carries the later calendar date, equal instants, a date-only layout with offsets a
+	// day apart): it prints its numbers and ends
+	{
+		sdir := filepath.Join(c.Work, "stats-zones")
+		cases := []struct{ layout, heading, today string }{
+			{"2006/01/02 -0700", "2021/01/26 +1400", "2021/01/25 -1200"},
+			{"2006/01/02 -0700", "2021/01/25 +1200", "2021/01/24 -1200"},
+			{"2006/01/02 15:04 -0700", "2021/01/26 00:30 +0100", "2021/01/25 23:45 +0000"},
+			{"2006/01/02 15:04 -0700", "2021/01/25 23:45 +0000", "2021/01/26 00:30 +0100"},
+			{"2006/01/02 15:04 -0700", "2021/01/26 00:30 +0100", "2021/01/25 23:30 +0000"},
+			{"2006/01/02 15:04 -0700", "2021/03/28 03:30 +0200", "2021/03/28 01:30 +0100"},
+			{"2006/01/02 15:04:05 -07:00", "0001/01/01 00:00:00 +00:00", "9999/12/31 23:59:59 -12:00"},
+			{"2006/01/02 15:04 MST", "2021/01/26 00:30 CET", "2021/01/25 23:45 UTC"},
+		}
+		hangs := 0
+		for ci, cs := range cases {
+			for _, tz := range []string{"UTC", "America/Los_Angeles", "Pacific/Kiritimati"} {
+				if hangs >= 2 {
+					// settled: every further hanging case would cost another two and a half minutes
+					continue
+				}
+				run.WriteFiles(sdir, map[string]string{"food.yaml": "a:\n  x: 1\n", "log.yaml": cs.heading + ":\n  a: 1\n"})
+				args := []string{"--no-color", "-d", "food.yaml", "-l", "log.yaml", "--date-format", cs.layout, "--today", cs.today, "stats"}
+				res := run.Exec(c.HR, args, run.ExecOpts{Dir: sdir, Env: map[string]string{"TZ": tz}, Timeout: 20 * time.Second})
+				if res.TimedOut {
+					res = run.Exec(c.HR, args, run.ExecOpts{Dir: sdir, Env: map[string]string{"TZ": tz}, Timeout: 120 * time.Second})
+				}
+				c.Eval(1)
+				c.Count("stats_runs_across_offsets", 1)
+				c.Nontrivial("stats-zones", fmt.Sprint(ci), tz)
+				doc := caseDoc{Files: map[string]string{"log.yaml": cs.heading + ":\n  a: 1\n"}, Args: args, Env: map[string]string{"TZ": tz}, Observed: resDoc(res)}
+				if res.TimedOut {
+					hangs++
+					c.Violation("stats|hang", fmt.Sprintf("heading %q, --today %q, TZ=%s: no termination within 20 s nor within 120 s in a second run", cs.heading, cs.today, tz), doc)
+				} else if res.Crashed() {
+					c.Violation("stats|crash", clip(res.Serr, 300), doc)
+				}
+			}
+		}
+	}
 	// nor is the machine: one processor (taskset -c 0: a single-vCPU host, a one-CPU cpuset), a scheduler limited to
 	// one thread, a low limit on open files and on address space that still leaves room for the small inputs
 	{
